@@ -20,7 +20,8 @@ pub struct Stats {
     /// or one probe translation batch)
     pub calls: u64,
     pub probe_translations: u64,
-    pub distinct: BTreeSet<(u32, u8, u8, u8, u8, u8, (u8, u8, u8, u8, u8, u8))>,
+    /// packed (op, size, class, outcome, mask/released, view, bucketed per-level table and leaf counts)
+    pub distinct: BTreeSet<u64>,
     pub probes: BTreeMap<String, u64>,
     pub cells: BTreeMap<String, u64>,
     pub fired: [u64; 5],
@@ -36,6 +37,8 @@ pub struct Stats {
     pub enum_ranges: u64,
     pub tlb_fills: u64,
     pub tlb_checks: u64,
+    /// translate_page probe cells: [size][class][code]
+    pub tp_cells: [[[u64; 8]; 5]; 3],
 }
 
 impl Stats {
@@ -71,6 +74,13 @@ impl Stats {
         self.enum_ranges += o.enum_ranges;
         self.tlb_fills += o.tlb_fills;
         self.tlb_checks += o.tlb_checks;
+        for a in 0..3 {
+            for b in 0..5 {
+                for c in 0..8 {
+                    self.tp_cells[a][b][c] += o.tp_cells[a][b][c];
+                }
+            }
+        }
     }
 }
 
@@ -89,6 +99,17 @@ pub struct Exec<'a> {
     probes: Vec<u64>,
     pub stats: &'a mut Stats,
     scribble_salt: u64,
+    enum_range_steps: u32,
+}
+
+fn class_ix(c: Class) -> usize {
+    match c {
+        Class::NoPath(_) => 0,
+        Class::Free => 1,
+        Class::MappedExact => 2,
+        Class::InsideHuge(_) => 3,
+        Class::HoldsTable => 4,
+    }
 }
 
 fn viol(props: &[&str], oracle: &str, step: usize, detail: String) -> Violation {
@@ -152,7 +173,7 @@ impl<'a> Exec<'a> {
             ftp_log: vec![],
             do_flush: cfg.tlb,
         });
-        let mut e = Exec { cfg: cfg.clone(), rs, probes: BOUNDARY.to_vec(), stats, scribble_salt: 1 };
+        let mut e = Exec { cfg: cfg.clone(), rs, probes: BOUNDARY.to_vec(), stats, scribble_salt: 1, enum_range_steps: 0 };
         set_run(&mut *e.rs as *mut RunState);
         *e.stats.views.entry(cfg.view.name().to_string()).or_insert(0) += 1;
         e.stats.runs += 1;
@@ -244,63 +265,89 @@ impl<'a> Exec<'a> {
         w.cpu = s.cpu.clone();
         w.rec_drop_aliases();
         self.rs.model = s.model.clone();
+        // counters of what fired are measurements, not simulation state: they survive the rollback
+        let (fired, recycled) = (self.rs.alloc.fired, self.rs.alloc.recycled);
         self.rs.alloc = s.alloc.clone();
+        self.rs.alloc.fired = fired;
+        self.rs.alloc.recycled = recycled;
+    }
+
+    /// Committed frames that are not page tables of the model (normally none): kept for the byte diff.
+    fn nontable_snapshot(&self) -> Vec<(u64, Box<[u64; 512]>)> {
+        let w = world();
+        let tables: BTreeSet<u64> = self.rs.model.table_frames().collect();
+        w.mem.committed_frames().filter(|f| !tables.contains(f)).map(|f| (f, Box::new(w.mem.read_frame(f)))).collect()
     }
 
     /// Compare all table memory with the model image; on success collapse the flag bounds.
+    /// `pre_mem` holds the pre-call contents of the committed frames that were not tables.
     fn image_check(&self, after: &mut RefMmu, pre_mem: &[(u64, Box<[u64; 512]>)], released: &[u64]) -> Result<(), (bool, String)> {
         let w = world();
         let mut updates: Vec<(Path, u64)> = Vec::new();
         for (path, t) in after.tables.iter() {
             let words = w.mem.read_frame(t.frame);
-            for i in 0..512u16 {
-                let e = words[i as usize];
-                let c = path.child(i);
-                if path.len < 4 {
-                    if let Some(l) = after.leaves.get(&c) {
-                        let exp = l.frame | l.flags;
-                        if e != exp {
-                            return Err((true, format!("leaf entry {}: expected {:#x}, memory holds {:#x}", c.fmt(), exp, e)));
-                        }
-                        continue;
-                    }
-                    if let Some(ct) = after.tables.get(&c) {
-                        let fl = e & !ADDR;
-                        if e & ADDR != ct.frame {
-                            return Err((true, format!("table entry {}: expected frame {:#x}, memory holds {:#x}", c.fmt(), ct.frame, e)));
-                        }
-                        if ct.lo & !fl != 0 || fl & !ct.hi != 0 {
-                            return Err((
-                                true,
-                                format!("table entry {}: flags {:#x} outside the allowed bounds [{:#x}, {:#x}] (entry {:#x})", c.fmt(), fl, ct.lo, ct.hi, e),
-                            ));
-                        }
-                        updates.push((c, fl));
-                        continue;
-                    }
+            // expected image of this table: 0 = must be zero, otherwise exact value or table pointer
+            let mut exact = [0u64; 512];
+            let mut is_tbl = [false; 512];
+            if path.len < 4 {
+                let (lo, hi) = (path.child(0), path.child(511));
+                for (c, l) in after.leaves.range(lo..=hi) {
+                    exact[c.last() as usize] = l.frame | l.flags;
                 }
-                let exp = if path.len == 0 && Some(i) == after.rec { after.root | P | W } else { 0 };
-                if e != exp {
-                    return Err((true, format!("entry {} should be {:#x} (no mapping there) but memory holds {:#x}", c.fmt(), exp, e)));
+                for (c, _) in after.tables.range(lo..=hi) {
+                    is_tbl[c.last() as usize] = true;
+                }
+            }
+            if path.len == 0 {
+                if let Some(r) = after.rec {
+                    exact[r as usize] = after.root | P | W;
+                }
+            }
+            for i in 0..512usize {
+                let e = words[i];
+                if is_tbl[i] {
+                    let c = path.child(i as u16);
+                    let ct = &after.tables[&c];
+                    let fl = e & !ADDR;
+                    if e & ADDR != ct.frame {
+                        return Err((true, format!("table entry {}: expected frame {:#x}, memory holds {:#x}", c.fmt(), ct.frame, e)));
+                    }
+                    if ct.lo & !fl != 0 || fl & !ct.hi != 0 {
+                        return Err((
+                            true,
+                            format!("table entry {}: flags {:#x} outside the allowed bounds [{:#x}, {:#x}] (entry {:#x})", c.fmt(), fl, ct.lo, ct.hi, e),
+                        ));
+                    }
+                    if ct.lo != fl || ct.hi != fl {
+                        updates.push((c, fl));
+                    }
+                } else if e != exact[i] {
+                    let c = path.child(i as u16);
+                    if exact[i] != 0 && !(path.len == 0 && Some(i as u16) == after.rec) {
+                        return Err((true, format!("leaf entry {}: expected {:#x}, memory holds {:#x}", c.fmt(), exact[i], e)));
+                    }
+                    return Err((true, format!("entry {} should be {:#x} (no mapping there) but memory holds {:#x}", c.fmt(), exact[i], e)));
                 }
             }
         }
         // everything that is not a table must be byte-identical to what it was
-        let tables: BTreeSet<u64> = after.table_frames().collect();
-        let pre: BTreeMap<u64, &Box<[u64; 512]>> = pre_mem.iter().map(|(f, b)| (*f, b)).collect();
-        let committed: Vec<u64> = w.mem.committed_frames().collect();
-        for f in committed {
-            if tables.contains(&f) || released.contains(&f) {
-                continue;
-            }
-            let now = w.mem.read_frame(f);
-            for i in 0..512 {
-                let was = match pre.get(&f) {
-                    Some(b) => b[i],
-                    None => garbage_word(w.mem.garbage_seed, f >> 12, i),
-                };
-                if now[i] != was {
-                    return Err((false, format!("physical frame {:#x} is not a page table of the hierarchy but word {} changed {:#x} -> {:#x}", f, i, was, now[i])));
+        if w.mem.committed_count() != after.tables.len() {
+            let tables: BTreeSet<u64> = after.table_frames().collect();
+            let pre: BTreeMap<u64, &Box<[u64; 512]>> = pre_mem.iter().map(|(f, b)| (*f, b)).collect();
+            let committed: Vec<u64> = w.mem.committed_frames().collect();
+            for f in committed {
+                if tables.contains(&f) || released.contains(&f) {
+                    continue;
+                }
+                let now = w.mem.read_frame(f);
+                for i in 0..512 {
+                    let was = match pre.get(&f) {
+                        Some(b) => b[i],
+                        None => garbage_word(w.mem.garbage_seed, f >> 12, i),
+                    };
+                    if now[i] != was {
+                        return Err((false, format!("physical frame {:#x} is not a page table of the hierarchy but word {} changed {:#x} -> {:#x}", f, i, was, now[i])));
+                    }
                 }
             }
         }
@@ -435,15 +482,18 @@ impl<'a> Exec<'a> {
             View::Recursive { .. } => 2,
         };
         let sz = step.size().map(|z| z as u8).unwrap_or(3);
-        let shape = self.rs.model.coarse_shape();
-        self.stats.distinct.insert((op as u32, sz, cls, out.code as u8, mask, view, shape));
+        let sh = self.rs.model.coarse_shape();
+        let b = |x: u8| x.min(3) as u64;
+        let shape = b(sh.0) | b(sh.1) << 2 | b(sh.2) << 4 | b(sh.3) << 6 | b(sh.4) << 8 | b(sh.5) << 10;
+        let key = (op as u64) << 40 | (sz as u64) << 36 | (cls as u64) << 32 | (out.code as u64) << 28 | (mask.min(15) as u64) << 24 | (view as u64) << 20 | shape;
+        self.stats.distinct.insert(key);
     }
 
     /// One call of the crate under one allocator-failure mask, with all oracles.
     fn attempt(&mut self, i: usize, step: &Step, mask: u8) -> Result<(), Violation> {
         let w = world();
         let pre = self.rs.model.clone();
-        let pre_mem = w.mem.snapshot();
+        let pre_mem = self.nontable_snapshot();
         let cr3_before = w.cpu.cr3;
         // SetFlagsP misuse filter (result undefined by the docs)
         if let Step::SetFlagsP { .. } = step {
@@ -659,7 +709,7 @@ impl<'a> Exec<'a> {
         w.allowed = self.rs.model.table_frames().collect();
         // repeating the clean-up must release nothing
         let pre2 = self.rs.model.clone();
-        let pre_mem2 = w.mem.snapshot();
+        let pre_mem2 = self.nontable_snapshot();
         self.rs.alloc.begin_call(0);
         self.rs.dealloc_obs.clear();
         self.rs.released_this_call.clear();
@@ -693,7 +743,7 @@ impl<'a> Exec<'a> {
         self.rs.alloc.begin_call(0);
         self.rs.dealloc_obs.clear();
         w.allowed = self.rs.model.table_frames().collect();
-        let pre_mem = w.mem.snapshot();
+        let pre_mem = self.nontable_snapshot();
         let outs = match call_many(&steps) {
             Ok(o) => o,
             Err(msg) => return Err(viol(&["C01"], "panic", i, format!("translate/translate_page panicked on the probe set: {msg}"))),
@@ -741,22 +791,22 @@ impl<'a> Exec<'a> {
             }
             for (j, sz) in Size::ALL.iter().enumerate() {
                 let st = &steps[4 * k + 1 + j];
-                let sp = spec(&self.rs.model, st, &[]).unwrap();
+                let (class, any_err, acc, exp_frame) = crate::spec::translate_page_expect(&self.rs.model, st.page().unwrap(), *sz);
                 let o = &outs[4 * k + 1 + j];
-                let ok = if sp.any_err { o.code != Code::Ok } else { sp.accept.contains(&o.code) && (o.code != Code::Ok || o.frame == sp.exp_frame) };
+                let ok = if any_err { o.code != Code::Ok } else { o.code == acc && (o.code != Code::Ok || o.frame == exp_frame) };
                 if !ok {
                     let mut props = vec!["C02"];
-                    if o.code == Code::Ok || sp.accept.contains(&Code::Ok) {
+                    if o.code == Code::Ok || acc == Code::Ok {
                         props.insert(0, "C01");
                     }
                     return Err(viol(
                         &props,
                         "translate_page",
                         i,
-                        format!("translate_page::<{}>({:#x}) in state {} returned {} {:x?}; documentation defines {}", sz.name(), st.page().unwrap(), sp.class.name(), o.code.name(), o.frame, if sp.any_err { "an error".to_string() } else { format!("{} {:x?}", sp.accept[0].name(), sp.exp_frame) }),
+                        format!("translate_page::<{}>({:#x}) in state {} returned {} {:x?}; documentation defines {}", sz.name(), st.page().unwrap(), class.name(), o.code.name(), o.frame, if any_err { "an error".to_string() } else { format!("{} {:x?}", acc.name(), exp_frame) }),
                     ));
                 }
-                *self.stats.cells.entry(format!("translate_page/{}/{}/{}", sz.name(), sp.class.name(), o.code.name())).or_insert(0) += 1;
+                self.stats.tp_cells[j][class_ix(class)][o.code as usize] += 1;
             }
         }
         let mut same = self.rs.model.clone();
@@ -824,8 +874,13 @@ impl<'a> Exec<'a> {
                 self.rollback(&s);
             }
         }
-        if self.cfg.enumerate_ranges && matches!(step, Step::CleanUp | Step::CleanUpRange { .. }) {
-            for cand in self.range_candidates() {
+        if self.cfg.enumerate_ranges && self.enum_range_steps < 2 && matches!(step, Step::CleanUp | Step::CleanUpRange { .. }) {
+            self.enum_range_steps += 1;
+            let all = self.range_candidates();
+            // bounded: at most 24 candidates per step, spread over the whole candidate list
+            let stride = (all.len() + 23) / 24;
+            let off = i % stride.max(1);
+            for cand in all.into_iter().skip(off).step_by(stride.max(1)) {
                 let s = self.snap();
                 self.stats.enum_ranges += 1;
                 let st = Step::CleanUpRange { start: cand.0, end: cand.1 };
